@@ -297,12 +297,52 @@ let run_vc toks =
   Buffer.add_string buf " ; leak=0";
   Buffer.contents buf
 
+(* ------------------------------------------------------------------------------------------ two vectors, two contexts
+   vs: vector 1 over context A, vector 2 over context B; swap exchanges contents AND contexts; a push goes to the
+   vector that belongs to the context of the pushed polynomial.  "W c_0 .." (from the C output) = canonical pool
+   index of every context-B polynomial (reduction mod M may identify specifications). *)
+let run_vs toks cout =
+  let toks = match toks with _m :: rest -> rest | [] -> [] in
+  let (specs, _, ops) = read_pool toks false in
+  let p = Array.length specs in
+  let canon = match split_groups cout with
+    | ("W" :: c) :: _ when List.length c = p -> Array.of_list (List.map int_of_string c)
+    | _ -> raise (Stop "CHECK fail unparsable header") in
+  let zero = -1 in
+  let v = [| ('A', []); ('B', []) |] in
+  let buf = Buffer.create 4096 in
+  Buffer.add_string buf ("W " ^ str_ids (Array.to_list canon));
+  let buf0 = Buffer.contents buf in
+  Buffer.clear buf;
+  Buffer.add_string buf (String.concat " " (String.split_on_char '.' buf0));
+  List.iter (fun op ->
+    Buffer.add_string buf " ;";
+    let k = (try int_of_string (tail_from op 1) with _ -> 0) in
+    let home tag = if fst v.(0) = tag then 0 else 1 in
+    let out =
+      match op.[0] with
+      | 'a' -> let q = home 'A' in v.(q) <- ('A', vec_push (snd v.(q)) k); "-"
+      | 'b' -> let q = home 'B' in v.(q) <- ('B', vec_push (snd v.(q)) canon.(k)); "-"
+      | 'A' -> let q = home 'A' in let (l, src) = vec_push_move zero (snd v.(q)) k in v.(q) <- ('A', l); if src = zero then "z" else "?"
+      | 'B' -> let q = home 'B' in let (l, src) = vec_push_move zero (snd v.(q)) canon.(k) in v.(q) <- ('B', l); if src = zero then "z" else "?"
+      | 'w' -> let x = v.(0) in v.(0) <- v.(1); v.(1) <- x; "-"
+      | 't' -> let q = if k = 2 then 1 else 0 in v.(q) <- (fst v.(q), vec_reset (snd v.(q))); "-"
+      | _ -> "?" in
+    Buffer.add_string buf (" " ^ out);
+    Array.iter (fun (tag, l) ->
+      let n = int_of_nat (vec_size l) in
+      let ids = List.init n (fun i -> match vec_at l (nat_of_int i) with Some e -> e | None -> -2) in
+      Buffer.add_string buf (Printf.sprintf " %c %d a:%s" tag n (str_ids ids))) v) ops;
+  Buffer.add_string buf " ; leak=0";
+  Buffer.contents buf
+
 let run (toks : string list) (cout : string list) : string =
   try
     match toks with
     | "hashes" :: _ -> String.concat " " cout     (* a query, nothing to check *)
-    | "hs" :: rest -> run_hs rest cout
-    | "hp" :: rest -> run_hp rest cout
+    | "hs" :: rest | "hs2" :: rest -> run_hs rest cout
+    | "hp" :: rest | "hp2" :: rest -> run_hp rest cout
+    | "vs" :: rest -> run_vs rest cout
     | "vc" :: rest -> run_vc rest
     | "hc" :: rest -> run_hc rest cout
     | _ -> "UNKNOWN-OP"
